@@ -29,6 +29,9 @@ for l in out.splitlines():
         try: rec["replay_head"] = open(m.group(1)).read()[:1500].replace(n, "<scratch>")
         except Exception: pass
         break
+if "harness build failed" in (rec.get("replay_head") or ""):
+    # the scratch harness did not compile (e.g. /repo HEAD and the harness were out of step): not a detection
+    print("seediso: harness build failed in the scratch copy; run NOT recorded"); raise SystemExit(0)
 with open("/verif/seeded/detections.jsonl", "a") as f:
     fcntl.flock(f, fcntl.LOCK_EX)
     f.write(json.dumps(rec) + "\n")
